@@ -35,6 +35,8 @@ def run(prog, report, tier):
     estimrules.check_patch(prog, report)
     estimrules.check_accumulation(prog, report)
     estimrules.check_orders(prog, report)
+    normsrules.check_order_defaults(prog, report)
+    effects.check_memo(prog, report, files={'src/norms.py', effects.EE})
     normsrules.check_singular_measure(prog, report)
     effects.check_pools(prog, report, only={effects.EE})
     effects.check_samecall(prog, report)
